@@ -135,7 +135,15 @@ def check_type_renderer(fx, rep, rule, name, remap_path, prim_path):
             return ("ret", fc.rewrite(v, rw), effs)
         return ("cont", effs)
     base = len(L["entry"].conds)
-    bad, n = fc.compare_paths(L["paths"], ref, outcome, rw=rw, base=base)
+    # exits from inside the loop are taken at function level: when the loop lives in a private helper, what the helper returns
+    # there is not yet the function's answer - the caller's continuation (its match on the helper's result) is part of the path
+    lpaths = [(st, o) for st, o in L["paths"] if o[0] != S.RET]
+    for st, (k, v) in res:
+        if ("inloop", idx) in st.effects:
+            st2 = st.copy()
+            st2.effects = tuple(st.effects[st.effects.index(("inloop", idx)) + 1:])
+            lpaths.append((st2, (S.RET, v)))
+    bad, n = fc.compare_paths(lpaths, ref, outcome, rw=rw, base=base)
     if not bad:
         rep.ok(rule, "%s/%s/state-machine" % (rule, name), loc=F.loc(L["node"]),
                found="%d canonical paths equal the reference ('[' -> suffix += \"[]\"; 'L..;' -> remap_class(dotted) else dotted; primitive -> keyword; + suffix)" % len(L["paths"]))
@@ -611,38 +619,97 @@ def params_loop_form(fx, sy, L, types, CV, recv):
     return okp, desc, V, L["index"]
 
 
+def str_pieces(t):
+    """a string-valued term as a flat list of pieces: ("txt", literal text) / ("val", term). format!, `[..].concat()`, `a + b`,
+    push_str (as `strcat`), String::from / to_string / to_owned / as_str of a string are looked through; adjacent text is merged."""
+    out = []
+
+    def add(x):
+        if x[0] == "txt" and out and out[-1][0] == "txt":
+            out[-1] = ("txt", out[-1][1] + x[1])
+        elif not (x[0] == "txt" and x[1] == ""):
+            out.append(x)
+
+    def go(u):
+        if u[0] == "lit" and u[1] == "str":
+            add(("txt", u[2]))
+        elif u[0] == "lit" and u[1] == "char":
+            add(("txt", u[2]))
+        elif u[0] == "format" and u[1][0] == "fmtargs":
+            args = list(u[1][2])
+            for pc in u[1][1]:
+                if pc[0] == "txt":
+                    add(("txt", pc[1]))
+                else:
+                    a_ = args.pop(0) if args else ("display", ("?",))
+                    if a_[0] == "display":
+                        go(a_[1])
+                    else:
+                        add(("val", a_))
+        elif u[0] == "strcat":
+            go(u[1])
+            go(u[2])
+        elif u[0] == "call" and u[1].endswith("::concat") and len(u[2]) == 1 and u[2][0][0] == "array":
+            for e_ in u[2][0][1]:
+                go(e_)
+        elif u[0] == "call" and u[1] == "std::ops::Add::add" and len(u[2]) == 2:
+            go(u[2][0])
+            go(u[2][1])
+        elif u[0] == "call" and len(u[2]) == 1 and u[1].split("::")[-1] in ("as_str", "to_string", "to_owned", "from", "into", "deref", "as_ref", "clone", "borrow") \
+                and (u[2][0][0] in ("format", "strcat", "lit") or (u[2][0][0] == "call" and u[2][0][1].endswith("::concat"))):
+            go(u[2][0])
+        elif u[0] == "call" and u[1].endswith("String::new") and not u[2]:
+            pass
+        else:
+            add(("val", u))
+    go(t)
+    return tuple(out)
+
+
 def check_format_signature(fx, rep, rule):
+    """the string format_signature returns, read off its value whichever way it is assembled (format!, push_str, concat, +):
+    "(" + parameters.join(", ") + ")" and, iff the return type is neither empty nor "void", ": " + return type"""
     p = A.one(rep, rule, "DeobfuscatedSignature::format_signature", A.method(fx, "mapper::DeobfuscatedSignature", "format_signature"))
     if not p:
         return
     rep.fn(p)
     b = fx.bodies[p]
-    sy = S.Sym(fx)
-    res = sy.eval_body(b)
+    sy = S.Sym(fx, inline_mut=True, string_values=True)
+    try:
+        res = sy.eval_body(b)
+    except S.Undecidable as e:
+        rep.undecidable(rule, "%s/format_signature/shape" % rule, loc=F.short_file(b["sp"]), construct=e.msg)
+        return
+    if sy.loop_order:
+        rep.undecidable(rule, "%s/format_signature/shape" % rule, loc=F.short_file(b["sp"]), construct="loop in format_signature")
+        return
     slf = ("in", "self")
     ret = mk_field(slf, "return_type")
-    base_fmt = ("format", ("fmtargs", (("txt", "("), ("hole",), ("txt", ")")), (("display", call("alloc::slice::join", mk_field(slf, "parameters"), ("lit", "str", ", "))),)))
+    def is_join(t):
+        return t[0] == "call" and t[1].endswith("::join") and len(t[2]) == 2 and t[2][0] == mk_field(slf, "parameters")
 
     def outcome(st, out):
-        effs = tuple((e[1].split("::")[-1], e[2][1]) for e in st.effects if e[0] == "call")
-        return effs
+        pcs = str_pieces(out[1])
+        # the parameter list: join(self.parameters, <sep>) with the separator made visible
+        norm = []
+        for pc in pcs:
+            if pc[0] == "val" and is_join(pc[1]):
+                norm.append(("params-joined-by", pc[1][2][1]))
+            else:
+                norm.append(pc)
+        return tuple(norm)
 
     def ref(o):
+        base = (("txt", "("), ("params-joined-by", ("lit", "str", ", ")), ("txt", ")"))
         if (not o(("empty", ret))) and (not o(("eq", ret, ("lit", "str", "void")))):
-            return (("push_str", ("lit", "str", ": ")), ("push_str", ret))
-        return ()
+            return base[:2] + (("txt", "): "), ("val", ret))
+        return base
     bad, n = fc.compare_paths(res, ref, outcome)
-    R1.report_cmp(rep, rule, "%s/format_signature/return-part" % rule, b, res, bad, "append \": \" + return type iff it is neither empty nor \"void\"")
-    tpl = set()
-    for nn in F.walk(b["body"]):
-        if nn.get("k") == "Call" and "fn" in nn and nn["fn"]["path"].startswith("std::fmt::Arguments") and nn["fn"]["path"].endswith("::new"):
-            a0 = F.strip(nn["args"][0])
-            if a0.get("k") == "Lit" and a0["lit"]["t"] == "bytes":
-                import models as M
-                tpl.add("".join(x[1] if x[0] == "txt" else "{}" for x in M.decode_template(bytes(a0["lit"]["v"]))))
-    joins = [nn for nn in F.walk(b["body"]) if nn.get("k") == "Call" and "fn" in nn and nn["fn"]["path"].endswith("::join")]
-    sep = F.strip(joins[0]["args"][1]).get("lit", {}).get("v") if joins else None
-    rep.check(rule, "%s/format_signature/template" % rule, tpl == {"({})"} and sep == ", ", loc=F.short_file(b["sp"]), found="template %s, separator %r" % (sorted(tpl), sep),
+    R1.report_cmp(rep, rule, "%s/format_signature/return-part" % rule, b, res, bad,
+                  "\"(\" + parameters.join(\", \") + \")\", then \": \" + return type iff it is neither empty nor \"void\"")
+    tpl_ok = not bad and all(outcome(st, o)[:2] == (("txt", "("), ("params-joined-by", ("lit", "str", ", "))) for st, o in res)
+    rep.check(rule, "%s/format_signature/template" % rule, tpl_ok, loc=F.short_file(b["sp"]),
+              found="every path starts with \"(\" + parameters.join(\", \")" if tpl_ok else [S.tstr(outcome(st, o))[:200] for st, o in res][:3],
               expected='"({})" around parameters joined by ", "')
 
 
